@@ -13,6 +13,7 @@
 # limitations under the License.
 """Base for DNA generators."""
 
+import threading
 from typing import Callable, Iterable, Iterator, Optional, Tuple, Union
 
 from pyglove.core import symbolic
@@ -72,6 +73,7 @@ class DNAGenerator(symbolic.Object):
     self._dna_spec = dna_spec
     self._num_proposals = 0
     self._num_feedbacks = 0
+    self._counter_lock = threading.Lock()
     self._setup()
 
   def _setup(self) -> None:
@@ -104,7 +106,8 @@ class DNAGenerator(symbolic.Object):
   def propose(self) -> DNA:
     """Propose a DNA to evaluate."""
     dna = self._propose()
-    self._num_proposals += 1
+    with self._counter_lock:
+      self._num_proposals += 1
     return dna
 
   def _propose(self) -> DNA:
@@ -129,7 +132,8 @@ class DNAGenerator(symbolic.Object):
               f'contains multiple objectives.')
         reward = reward[0]
       self._feedback(dna, reward)
-    self._num_feedbacks += 1
+    with self._counter_lock:
+      self._num_feedbacks += 1
 
   def _feedback(self, dna: DNA, reward: Union[float, Tuple[float]]) -> None:
     """Actual feedback method which should be implemented by the child class.
